@@ -285,7 +285,8 @@ def oracle_c02(rec):
     np = L['np']
     issues = []
     stats = dict(dumps=0, min_in_trial=0, ties=0)
-    if rec['cfg']['hook'] != 'observer':
+    if rec['cfg']['hook'] not in ('observer', 'relist', 'swap'):
+        # hooks that only re-order the population (or install a re-ordered list) change no position and no fitness
         return issues, stats
     vals = []   # (arg, val, kind)
     running = []
@@ -467,6 +468,17 @@ def oracle_c04(rec, driver=None):
             got = attrs[k][t]
             if not same_record(live, got):
                 issues.append(dict(what='record-differs', key=k, t=t, live=repr(live)[:300], stored=repr(got)[:300]))
+            # … and the record describes the *space* as it is when the record is written (not some other list the optimizer
+            # happens to hold): positions and fitness of space.agents / space.best_agent at that moment
+            sn = e.get('snap')
+            if sn is not None and k == 'agents':
+                state = [(a['real'].tolist(), a['fit']) for a in sn['pop']]
+                if not same_record(state, got):
+                    issues.append(dict(what='record-is-not-the-space', key=k, t=t, space=repr(state)[:300], stored=repr(got)[:300]))
+            if sn is not None and k == 'best_agent':
+                state = (sn['best']['pos'].tolist(), sn['best']['fit'])
+                if not same_record(state, got):
+                    issues.append(dict(what='record-is-not-the-space', key=k, t=t, space=repr(state)[:300], stored=repr(got)[:300]))
         # earlier records must not have moved since they were written
         for k, old in e['histcopy'].items():
             now = attrs.get(k)
